@@ -20,11 +20,8 @@ pub fn access<Data: GarnishData>(this: &mut Data) -> Result<Option<Data::Size>, 
         | (GarnishDataType::List, GarnishDataType::Number)
         | (GarnishDataType::List, GarnishDataType::Symbol)
         | (GarnishDataType::CharList, GarnishDataType::Number)
-        | (GarnishDataType::CharList, GarnishDataType::Symbol)
         | (GarnishDataType::ByteList, GarnishDataType::Number)
-        | (GarnishDataType::ByteList, GarnishDataType::Symbol)
         | (GarnishDataType::Range, GarnishDataType::Number)
-        | (GarnishDataType::Range, GarnishDataType::Symbol)
         | (GarnishDataType::Concatenation, GarnishDataType::Number)
         | (GarnishDataType::Concatenation, GarnishDataType::Symbol)
         | (GarnishDataType::Slice, GarnishDataType::Number)
